@@ -51,7 +51,7 @@ PROP = {
                   "bbq/vm and atree refine it is shown only by refinement testing on the generated sequences. atree is an "
                   "external dependency (trusted, exercised). Iteration is modelled only as far as the mutation guard goes "
                   "(loop bodies do nothing but count, run a nested iteration and mutate).",
-    "assumptions": ["element universe: Int, one-letter-repeated Strings, [Int], struct K.P(a: Int, b: String); keys Int or String",
+    "assumptions": ["element universe: Int (small, 2^128, and 2^2000 / 2^4400 / 2^9000 + c: beyond the inline limits of dictionary keys / array elements), one-letter-repeated Strings, [Int], struct K.P(a: Int, b: String); keys Int or String",
                     "runs stopped by the harness computation limit (10^8) or rejected by the VM compiler as too large (65534 instructions per function) are skipped, not compared"],
     "trusted_base": ["spec Verif.Spec.Containers / machine Verif.Model.Cont (is the spec)",
                      "Go harness cmd/vharness/stream_cont.go (typed Cadence templates; canonicalisation: letter runs compressed, "
